@@ -260,6 +260,9 @@ def family_table(R, ctx, ff):
                     v['sep'] = val
                 elif T.eff_indices(a1, r'fixed_name_part$') and 'file_stem' in repr(a0) and not T.eff_indices(a0, r'fixed_name_part$'):
                     v['pre'] = val
+                    if re.search(r"RangeTo|str>?::(find|split|split_once|rfind|rsplit)\b|'\.'", repr(a0)):
+                        flag('stem-starts-with-fixed-part', "the stem is cut at a dot BEFORE the fixed name part is stripped: with a dot in the basename or discriminant "
+                             "(e.g. FileSpec::try_from(\"dir/my.app.log\")) no file of the family is recognised any more - listing, cleanup and the next number see an empty family")
             elif re.match(r'^core::str::<impl str>::is_empty\(', la) and 'file_stem' in la:
                 v['nonempty'] = not val
             elif re.search(r'filter_infix#\d+', a) and kind in ('bool', 'switch'):
